@@ -169,7 +169,7 @@ where
             }
         }
         for (l, c) in &self.chunks {
-            if *l == label || !c.live {
+            if *l == label || !c.live || c.tainted {
                 continue;
             }
             let a = c.ptr.data_ptr as usize;
@@ -183,8 +183,9 @@ where
         }
     }
 
-    /// the canaries: owner side and every view
-    fn check_canaries(&self) {
+    /// the canaries: owner side and every view (a broken canary is reported once)
+    fn check_canaries(&mut self) {
+        let mut broken: Vec<u64> = vec![];
         for (l, c) in &self.chunks {
             if !c.live {
                 continue;
@@ -193,6 +194,7 @@ where
                 let s = unsafe { std::slice::from_raw_parts(c.ptr.data_ptr as *const u8, c.size) };
                 if s.iter().any(|x| *x != b) {
                     oracle_fail(format!("owner-canary: chunk {l} changed"));
+                    broken.push(*l);
                 }
             }
         }
@@ -202,16 +204,20 @@ where
                 let first = unsafe { std::ptr::read_volatile(r.ptr) };
                 let _ = first;
                 if let Some(c) = self.chunks.get(l) {
-                    if c.live && c.generation == r.generation {
+                    if c.live && c.generation == r.generation && !broken.contains(l) {
                         if let Some(b) = c.fill {
                             let s = unsafe { std::slice::from_raw_parts(r.ptr, c.size) };
                             if s.iter().any(|x| *x != b) {
                                 oracle_fail(format!("view-canary: chunk {l} differs in view {v}"));
+                                broken.push(*l);
                             }
                         }
                     }
                 }
             }
+        }
+        for l in broken {
+            self.chunks.get_mut(&l).unwrap().fill = None;
         }
     }
 
@@ -318,14 +324,14 @@ where
                 if self.regs[v].contains_key(&label) {
                     return "dup".into();
                 }
-                let (off, generation, live, align) = match self.chunks.get(&label) {
-                    Some(c) => (c.ptr.offset, c.generation, c.live, c.align),
+                let (off, generation, live, align, tainted) = match self.chunks.get(&label) {
+                    Some(c) => (c.ptr.offset, c.generation, c.live, c.align, c.tainted),
                     None => return "none".into(),
                 };
                 // DataSegmentView::register_and_translate_offset
                 match unsafe { self.views[v].register_and_translate_offset(off) } {
                     Ok(p) => {
-                        if live && (p as usize) % align != 0 {
+                        if live && !tainted && (p as usize) % align != 0 {
                             oracle_fail(format!("misaligned: chunk {label} in view {v}"));
                         }
                         self.regs[v].insert(label, Reg { ptr: p, off, generation });
@@ -483,13 +489,13 @@ pub fn generate(a: &Args) -> Vec<Vec<String>> {
     let aligns_big = [16usize, 32, 64, 4096];
     for _ in 0..a.cases {
         let st = match rng.below(100) {
-            0..=11 => "static",
-            12..=57 => "bestfit",
+            0..=7 => "static",
+            8..=55 => "bestfit",
             _ => "pow2",
         };
         let ia = match rng.below(100) {
-            0..=84 => *rng.pick(&aligns_small),
-            85..=97 => *rng.pick(&aligns_big),
+            0..=95 => *rng.pick(&aligns_small),
+            96..=98 => *rng.pick(&aligns_big),
             _ => 8192,
         };
         let isz = match rng.below(100) {
@@ -514,7 +520,14 @@ pub fn generate(a: &Args) -> Vec<Vec<String>> {
         for _ in 0..nops {
             let any_label = rng.below(nlabels);
             let live_label = if live.is_empty() || rng.chance(8) { any_label } else { *rng.pick(&live) };
-            let l = match rng.below(100) {
+            let mut roll = rng.below(100);
+            if live.is_empty() && rng.chance(75) {
+                roll = 0;
+            }
+            if regs.is_empty() && (81..=94).contains(&roll) {
+                roll = 75;
+            }
+            let l = match roll {
                 0..=33 => {
                     let free: Vec<u64> = (0..nlabels).filter(|x| !live.contains(x)).collect();
                     let label = if free.is_empty() || rng.chance(6) { any_label } else { *rng.pick(&free) };
@@ -524,9 +537,9 @@ pub fn generate(a: &Args) -> Vec<Vec<String>> {
                         65..=89 => cur + rng.range(1, 2 * cur as u64 + 8) as usize,
                         _ => rng.range(1, 300) as usize,
                     };
-                    let align = match rng.below(100) {
-                        0..=84 => *rng.pick(&aligns_small),
-                        85..=98 => *rng.pick(&aligns_big),
+                    let align = match rng.below(1000) {
+                        0..=979 => *rng.pick(&aligns_small),
+                        980..=996 => *rng.pick(&aligns_big),
                         _ => 8192,
                     };
                     if !live.contains(&label) {
@@ -549,7 +562,7 @@ pub fn generate(a: &Args) -> Vec<Vec<String>> {
                         15..=59 => old + rng.range(1, 8) as usize,
                         _ => old + rng.range(1, 3 * cur as u64 + 8) as usize,
                     };
-                    let align = if rng.chance(90) { *rng.pick(&aligns_small) } else { *rng.pick(&aligns_big) };
+                    let align = if rng.chance(98) { *rng.pick(&aligns_small) } else { *rng.pick(&aligns_big) };
                     sizes.insert(live_label, size);
                     cur = cur.max(size);
                     format!("grow {live_label} {size} {align} {}", if rng.chance(50) { "front" } else { "back" })
